@@ -14,6 +14,7 @@ pub mod c11;
 pub mod c12;
 pub mod c17;
 pub mod c18;
+pub mod c20;
 
 pub fn run(ctx: &mut Ctx) {
     // corpus replay tier first
@@ -33,6 +34,7 @@ pub fn run(ctx: &mut Ctx) {
         "C12" => c12::run_check12(ctx),
         "C17" => c17::run_check(ctx),
         "C18" => c18::run_check(ctx),
+        "C20" => c20::run_check(ctx),
         "C13" => c12::run_check13(ctx),
         other => {
             eprintln!("unknown property {}", other);
@@ -57,6 +59,7 @@ pub fn replay(ctx: &mut Ctx, case: &serde_json::Value) {
         "C12" | "C13" => c12::replay(ctx, case),
         "C17" => c17::replay(ctx, case),
         "C18" => c18::replay(ctx, case),
+        "C20" => c20::replay(ctx, case),
         other => {
             eprintln!("unknown property {}", other);
             std::process::exit(2);
